@@ -62,6 +62,15 @@ theorem object_roundtrip (C : Ctx) (o : Obj) (fuel : Nat) (rest : Bytes) (hE : E
     (decodeObjectF C fuel (encodeObject C o ++ rest)).res = .ok (norm o, rest) :=
   rt_obj C o fuel rest hE hf hs
 
+/-- the same for `decodeObject` (fuel 3·|input|+16, as used by the driver): the fuel always
+    suffices, so no fuel hypothesis is left -/
+theorem object_roundtrip_default_fuel (C : Ctx) (o : Obj) (rest : Bytes) (hE : Encodable C o)
+    (hs : (encodeObject C o).length < 2 ^ 63) :
+    (decodeObject C (encodeObject C o ++ rest)).res = .ok (norm o, rest) := by
+  unfold decodeObject
+  have := need_le C o
+  exact rt_obj C o _ rest hE (by simp only [List.length_append]; omega) hs
+
 /-- on well-formed values (unique map keys, compiler-shaped compiled functions) the round trip
     is the identity -/
 theorem object_roundtrip_exact (C : Ctx) (o : Obj) (fuel : Nat) (rest : Bytes) (hE : Encodable C o)
@@ -100,6 +109,23 @@ theorem bytecode_roundtrip (C : Ctx) (conv : BC → Res BC) (mods : Mods) (bc : 
     (hf : needBC bc ≤ fuel) (hE : EncodableBC C bc) :
     (decodeBytecodeF C conv mods fuel (encodeBytecode C bc)).res = fixObjects mods (normBC bc) :=
   rt_bytecode C conv mods bc fuel hf hE
+
+/-- the same for `decodeBytecode` (fuel 3·|input|+16) -/
+theorem bytecode_roundtrip_default_fuel (C : Ctx) (conv : BC → Res BC) (mods : Mods) (bc : BC)
+    (hE : EncodableBC C bc) :
+    (decodeBytecode C conv mods (encodeBytecode C bc)).res = fixObjects mods (normBC bc) := by
+  unfold decodeBytecode
+  refine rt_bytecode C conv mods bc _ ?_ hE
+  unfold needBC
+  have hb := (body_bounds C bc).2.2
+  have hlen : (encodeBytecodeBody C bc).length ≤ (encodeBytecode C bc).length := by
+    unfold encodeBytecode; simp only [List.length_append]; omega
+  cases hc : bc.constants with
+  | none => simp only; omega
+  | some cs =>
+    have h1 := need_le C (.array cs)
+    have h2 := hb cs hc
+    simp only; omega
 
 /-- the file set (names, bases, sizes, line tables) survives exactly, and so does every
     source map without repeated keys: error positions and stack traces are computed from
